@@ -14,7 +14,6 @@ NA = {
  "C21": "wrap-in-dbg / add-type-annotation preserve behaviour: same reason as C20.",
  "C22": "safety of --fix edits is a property of byte ranges computed at run time from positions.",
  "C27": "eval-up-to reports the run-time value: agreement between two executions.",
- "C29": "offset <-> LSP position round trip and edit application are pure arithmetic over all strings; needs execution or symbolic evaluation (panic-freedom of those helpers is inside C28).",
  "C32": "prelude functions are Garden source (__prelude.gdn), which none of the Rust-level analyses read; the Rust built-ins they call are inside C02.",
  "C33": "print/parse round trip of all syntax trees needs a printer and tree equality over generated inputs; parser-shape clauses are claimed under C01/C03 instead.",
 }
@@ -29,7 +28,7 @@ def chk(pid, technique, text, note, ref):
 
 chk("C24", "MIR dominance: effect-table calls dominated by enforce_sandbox false edge (interprocedural), config store dominance, who-may-write, no re-entry; REFUSE-FIRST (every path through a guarded built-in arm passes the sandbox test); allow-listed file read with re-checked refusal shape in check_snippet",
     "Every call into the std effect table reachable from eval::eval is shown to sit behind the false edge of an enforce_sandbox test on every CFG path and call chain; both sandbox entry points set the flag before any evaluation; a proof over code shape for all programs, not a sample of them.",
-    "Trusted: rustc's MIR and callee resolution; the effect table (std::fs/process/net/stdin/Path probes); dependency internals are not walked. One accepted probe (source_file canonicalize) is allow-listed with its reason; one known finding (check_snippet import reads).",
+    "Trusted: rustc's MIR and callee resolution; the effect table (std::fs/process/net/stdin/Path probes); dependency internals are not walked. One accepted probe (source_file canonicalize) and one file read (check_snippet's import resolution, whose refusal shape under the sandbox is re-checked) are allow-listed with their reasons.",
     "DESIGN.md section 4 C24")
 
 chk("C25", "MIR CFG: limit comparisons edge-dominate the step (edge-removal reachability), tick increment dominance, frame-push placement, config store dominance, blocking-call guards; thorough: loop and recursion inventory; no-panic inventory over the sandbox entry points; NATIVE-LOOPS (non-iterator and integer-range loops against a reviewed table) and RECURSION inventories; blocking table includes file reads",
@@ -37,12 +36,12 @@ chk("C25", "MIR CFG: limit comparisons edge-dominate the step (edge-removal reac
     "Trusted: rustc MIR; the blocking-API table. Deep value nesting inside one step is reported by the thorough tier as a known finding.",
     "DESIGN.md section 4 C25")
 
-chk("C08", "MIR CFG must-pass-through: every non-step exit of the interpreter loop restores the popped expression; no-effect-before-check; flag consumed once; RE-ENTRY (Interrupted arms of the session front ends hand no &mut Env to anything)",
+chk("C08", "MIR CFG must-pass-through: every non-step exit of the interpreter loop restores the popped expression; no-effect-before-check; flag consumed once; RE-ENTRY (Interrupted arms of the session front ends hand no &mut Env to anything); NAMESPACE-WRITERS shared with C10",
     "For every path of eval::eval from the pop of (state, expr) to a return that skips the step, restore_stack_frame(pair, []) is on the path, nothing but the tick counter is written before the checks, and the interrupt flag is cleared only on the Interrupted edge; so the machine state at an interrupt equals the state before the step, for every step of every program.",
     "Trusted: rustc MIR. Decides the state-restoration clause; equality of printed output additionally assumes steps are deterministic.",
     "DESIGN.md section 4 C08")
 
-chk("C26", "MIR CFG: exit(1) edge-dominated by failures>0 and reached unconditionally; sibling agreement of the two failure-count closures; per-iteration must-pass pop_to_toplevel and min=max=1 verdict rows; SELECTION-FILTER (test selection depends only on is-a-test and the -n filter)",
+chk("C26", "MIR CFG: exit(1) edge-dominated by failures>0 and reached unconditionally; sibling agreement of the two failure-count closures; per-iteration must-pass pop_to_toplevel and min=max=1 verdict rows; SELECTION-FILTER (test selection, in loop or iterator form, depends only on is-a-test and the -n filter); NO-SHARED-BUDGET (no run-wide tick/stack limit on the garden test path)",
     "The exit-status clause and the per-test reset clause hold on every CFG path of run_tests_in_files and eval_tests; counts printed and counts deciding the exit status are computed by the same predicate over the same summary.",
     "Trusted: rustc MIR. Independence with respect to namespace-level state (definitions a test mutates) is not decided.",
     "DESIGN.md section 4 C26")
@@ -52,12 +51,12 @@ chk("C34", "MIR CFG: value hand-out edge-dominated by exported_syms.contains (ru
     "Trusted: rustc MIR. Re-exports through chains of namespaces and type visibility are not decided.",
     "DESIGN.md section 4 C34")
 
-chk("C30", "MIR dominance chain eval<drop<join<drain<done; interval path-count dataflow done==1 per handler/op arm with callee summaries; last-message and in-order-send shapes; ATOMIC-TAKE (one lock per flush, text taken out under it); FRESH-ID (session ids from a growing counter); ID-ECHO (raw id cloned into every response); no-panic inventory over the nREPL threads",
+chk("C30", "MIR dominance chain eval<drop<join<drain<done; interval path-count dataflow done==1 per handler/op arm with callee summaries; last-message and in-order-send shapes; ATOMIC-TAKE (one lock per flush, text taken out under it); FRESH-ID (session ids from a growing counter); ID-ECHO (raw id cloned into every response); FRAMING (exact-length reads); `done` messages counted through helper summaries; no-panic inventory over the nREPL threads",
     "Ordering clauses proved on every CFG path: the flusher is joined and both buffers drained before any `done` is built, each handler and each op arm yields exactly one `done` (min=max=1 over all paths), and it is the last element sent. Interleavings beyond join-before-final-drain are not decided.",
     "Trusted: rustc MIR; mpsc FIFO; single writer thread. Thread schedules are not explored (a static analysis cannot); worker panic-freedom is a separate obligation.",
     "DESIGN.md section 4 C30")
 
-chk("C31", "MIR: reset-on-dequeue must-pass, interrupt addressing provenance (lookup key derives from request session id), who-sets-the-flag, per-step load dominance",
+chk("C31", "MIR: reset-on-dequeue must-pass, interrupt addressing provenance (lookup key derives from request session id), who-sets-the-flag, WHO-CLEARS (only the dequeue reset, the evaluator's Interrupted edge and the watchdog may clear a flag), per-step load dominance",
     "Necessary conditions named by the property, each proved for all paths: flag cleared between dequeue and handler and never after; interrupt/close address exactly the named session; only four sites set a flag; evaluator loads it every step. Lost/leaked interrupts under specific interleavings are NOT decided.",
     "Trusted: rustc MIR. Schedules are out of reach of static analysis; these are necessary, not sufficient, conditions.",
     "DESIGN.md section 4 C31")
@@ -67,7 +66,7 @@ chk("C13", "syntax-table coverage: diagonal arms of `impl PartialEq for Value_` 
     "Trusted: syn parse of values.rs/eval.rs; std/rpds element-wise equality. NaN reflexivity is excluded by the property (finite floats).",
     "DESIGN.md section 4 C13")
 
-chk("C10", "field-coverage: StackFrame fields (from the type) classified by a reviewed table; each state field reset by pop_to_toplevel on frame 0 on every path (MIR); Abort arm shapes; ABORT-CALLS unconditional (every path through the Command::Abort arm passes pop_to_toplevel)",
+chk("C10", "field-coverage: StackFrame fields (from the type) classified by a reviewed table; each state field reset by pop_to_toplevel on frame 0 on every path (MIR); Abort arm shapes; ABORT-CALLS unconditional (every path through the Command::Abort arm passes pop_to_toplevel); NAMESPACE-WRITERS (who may replace a frame's namespace); BLOCK-SCOPE-ORDER",
     "Reset-coverage clause: every per-evaluation field of the surviving frame is reset by :abort's only mechanism on every path, frames above are dropped, the Abort arms never evaluate afterwards. A new collection field without classification fails closed.",
     "Trusted: rustc MIR/ADT layout facts; the field classification table (reviewed, one reason per field). Whether top-level locals of the failed input should survive is not decided.",
     "DESIGN.md section 4 C10")
@@ -77,22 +76,22 @@ chk("C14", "schema conformance: symbolic evaluation of is_subtype's match arms i
     "Trusted: syn parse; the boolean-block evaluator's idiom set (fails closed outside it); the paper argument that the schema implies a preorder. Error types and ill-formed arities excluded as in the property.",
     "DESIGN.md section 4 C14")
 
-chk("C15", "schema conformance: rows of unify matched against upper-bound rows of the C14 relation; fold shape of unify_all; MIR call-presence for the five combining constructs; JOIN-INPUT-COVER (every match arm's type reaches unify_all)",
+chk("C15", "schema conformance: rows of unify matched against upper-bound rows of the C14 relation; fold shape of unify_all; MIR call-presence for the five combining constructs; JOIN-INPUT-COVER (every match arm's type reaches unify_all); FAIL-TOP (MIR dataflow: the type used when unification fails derives neither from the failure payload nor from an input)",
     "Every Some(X) that unify can return is justified as an upper bound by a row of the subtype schema under the condition it is returned, unify_all is the left fold from bottom, and list/dict/if/try/match inference reach these functions. By induction the combined type is a supertype of every input, and equal inputs return themselves.",
-    "Trusted: syn parse, rustc MIR call graph. How each caller uses the result (hover text) is not decided.",
+    "Trusted: syn parse, rustc MIR call graph. How each caller uses a successful result (hover text) is not decided; what it substitutes on failure is (FAIL-TOP).",
     "DESIGN.md section 4 C15")
 
-chk("C03", "table agreement (lexer operator constants / token->kind match / enum variants / evaluator dispatch and helper arms) + infix-loop shape of parse_expression (accumulator fold, rhs parser cannot absorb an operator, rotation idiom rejected)",
+chk("C03", "table agreement (lexer operator constants / token->kind match / enum variants / evaluator dispatch and helper arms) + infix-loop shape of parse_expression (accumulator fold, rhs parser cannot absorb an operator, rotation idiom rejected); OPERAND-CLOSED (MIR CFG: every operand parser that calls parse_expression looks at the next token afterwards; statement forms are the reviewed exceptions); USED-FLAG-RECURSE (the value-usage pass visits every sub-expression field of every Expression_ variant)",
     "The grouping structure is decided for chains of any length: a single loop folding BinaryOperator(acc, op, rhs) with an rhs parser that cannot consume a following operator yields left nesting by induction, with one precedence level; the four operator tables agree row by row. Values chains evaluate to are not computed.",
     "Trusted: syn parse. The shape is a sufficient condition; an equivalent but differently structured parser would be reported (fail closed).",
     "DESIGN.md section 4 C03")
 
-chk("C04", "MIR assert inventory (no overflow/div assert on signed ints reachable from eval, interval table re-checked) + syntax op-table per operator arm, zero/negative guards, sibling agreement of += with +, operand order",
+chk("C04", "MIR assert inventory (no overflow/div assert on signed ints reachable from eval, interval table re-checked) + syntax op-table per operator arm, zero/negative guards, sibling agreement of += with +, operand order; ERROR-RESTORE (error exits of the arithmetic helpers hand back the popped operands in push order; shared with C07's symbolic sequence analysis)",
     "Necessary structural clauses for every operator arm and every signed arithmetic site reachable from the evaluator: documented Rust operation on (lhs, rhs), guards present, unrepresentable results raise, compound assignment agrees with the binary operator. Numerical results are taken from Rust's definitions, not computed.",
     "Trusted: rustc MIR (overflow checks on), syn parse, Rust's wrapping_*/checked_* semantics.",
     "DESIGN.md section 4 C04")
 
-chk("C06", "abstract simulation of MIR under fixed enum discriminants: owes-table of eval_expr (blocks popped per (variant, state)) vs blocks popped by eval_break/eval_continue per discarded or re-scheduled entry (conservation), stop-only-at-running-loop; CONSUME-NEXT-BLOCK (eval_block moves bindings_next_block out)",
+chk("C06", "abstract simulation of MIR under fixed enum discriminants: owes-table of eval_expr (blocks popped per (variant, state)) vs blocks popped by eval_break/eval_continue per discarded or re-scheduled entry (conservation), stop-only-at-running-loop; CONSUME-NEXT-BLOCK (eval_block moves bindings_next_block out); BLOCK-SCOPE-ORDER",
     "The push/pop discipline of binding blocks is decided for every (Expression_ variant, state) entry and every path of the unwinding code: what an entry's own arm would pop is exactly what break/continue pop when they remove it, they stop only at the loop whose body runs, and return drops the whole frame. That discipline is what makes a block's variables invisible after any exit.",
     "Trusted: rustc MIR; the abstraction that an entry in a state that pops a block exists only while that block is pushed. Name-resolution results are not computed.",
     "DESIGN.md section 4 C06")
@@ -102,22 +101,22 @@ chk("C07", "symbolic sequence analysis over the syntax tree: values popped vs va
     "Trusted: syn parse, rustc MIR; the walker's idiom set (vec! literals, pushes, for-loops over args, mirrored pop vectors, optional pop groups) - a construction outside it is reported, not assumed.",
     "DESIGN.md section 4 C07")
 
-chk("C12", "table inverse check (escape/unescape match arms) + exact regular-language decision: product of the printed-literal DFA with STRING_RE's leftmost-first DFA (regex-automata), DFA inclusion for float/int text; NUMBER-PARSE (literal values come from std's parse on the `_`-stripped token text; numbers printed with std Display)",
+chk("C12", "table inverse check (escape/unescape match arms) + exact regular-language decision: product of the printed-literal DFA with STRING_RE's leftmost-first DFA (regex-automata), DFA inclusion for float/int text; NUMBER-PARSE (literal values come from std's parse on the `_`-stripped token text; numbers printed with std Display); UNIT-MIX (MIR unit dataflow: no char-sequence index derives from a byte offset, no str slice bound from a character count)",
     "Lexical clauses decided exactly for all strings: every literal escape_string_literal can print is read back by the lexer as exactly one token ending at its closing quote, whatever follows it, and unescape inverts escape row by row; printed finite floats and ints are whole number tokens. Not sampled; a failing tree yields a witness literal.",
     "Trusted: regex-automata's DFA (same engine family as the regex crate), syn parse, Rust's float Display shape. Compound values and parse->equal-value are not decided.",
     "DESIGN.md section 4 C12")
 
-chk("C23", "regex newline-reachability by DFA search selects multi-line token kinds; syntax provenance rules for end line/column of their Position literals and for every byte-offset advance / slice bound in the lexer loop; field-shape of Position::merge and CheckDiagnostic export",
+chk("C23", "regex newline-reachability by DFA search selects multi-line token kinds; syntax provenance rules for end line/column of their Position literals and for every byte-offset advance / slice bound in the lexer loop; field-shape of Position::merge and CheckDiagnostic export; POSITION-TRIPLE (each lexer Position literal: start from from_offset(start_offset), end from from_offset(end_offset) or start + one common length); UNIT-MIX over the whole crate",
     "Lexical clauses for all input texts: offsets advance only by character-boundary quantities, multi-line tokens take their end line/column from the end offset, merge pairs start fields with the first operand and end fields with the later end, exported line numbers are uniformly 1-based. Other position arithmetic is not decided.",
     "Trusted: syn parse, regex-automata DFA. Positions computed by checker fixes and the LSP layer are out of scope.",
     "DESIGN.md section 4 C23")
 
-chk("C01", "MIR panic-site inventory over the front end's reachable functions with dominance/dataflow discharge rules and a reviewed residue table whose guards are re-checked; parser progress-assertion idiom rule; pop/unpop pairing typestate; LOOP-GUARD (token loops that can reach parse_symbol leave on no progress), D-PROGRESS, KEYWORD-GUARD; guard fingerprints and guard-call census on reviewed rows; thorough: NATIVE-LOOPS and RECURSION inventories",
+chk("C01", "MIR panic-site inventory over the front end's reachable functions with dominance/dataflow discharge rules and a reviewed residue table whose guards are re-checked; parser progress-assertion idiom rule; pop/unpop pairing typestate; LOOP-GUARD (token loops that can reach parse_symbol leave on no progress), D-PROGRESS, KEYWORD-GUARD; guard fingerprints (comparisons canonicalised) and guard-call census on reviewed rows; thorough: NATIVE-LOOPS and RECURSION inventories",
     "Every panic-capable MIR operation (Assert terminators; unwrap/expect/panic!/unreachable!/assert!; indexing, slicing, RefCell borrows and the panicking-API table) in the functions reachable from the lexer, parser, checker and formatter entry points is enumerated; each is discharged by a small static proof (dominating length/arity/peek test, unsigned-add assumption, regex literal compiles, guard live ranges for RefCell) or by a reviewed row naming the guard it relies on; a new or unguarded site is reported with a call path. Decides the no-panic reading of C01 for all inputs; hangs and stack depth are only covered where listed.",
-    "Trusted: rustc MIR and callee resolution (class-hierarchy fallback for unresolved trait calls); the panicking-API table stands in for dependency code; reviewed residue rows are human arguments (150 rows, each with its reason, guards re-checked). Known findings: the parser's end-of-file handling in parse_symbol (three progress assertions, unbounded recursion/loops).",
+    "Trusted: rustc MIR and callee resolution (class-hierarchy fallback for unresolved trait calls); the panicking-API table stands in for dependency code; reviewed residue rows are human arguments (173 rows, each with its reason; named guards, guard fingerprints and the census of guard calls re-checked on every run; a row is re-found after a local is renamed only if its guards still hold). Known finding (thorough tier): stack depth on deeply nested syntax.",
     "DESIGN.md sections 3 and 4 C01")
 
-chk("C02", "MIR panic-site inventory over everything reachable from eval::eval (D-ARITY for built-in argument indexing, D-FRAME who-may-shrink, D-BORROW guard live ranges + transitive borrow summaries, D-DISPATCH, D-SLICEORDER); who-may-write rule for the value/expression stacks; BREAK-VALUE; WHO-CALLS-EVAL / TOPLEVEL-REPLACE; guard fingerprints on reviewed rows; thorough: NATIVE-LOOPS and RECURSION",
+chk("C02", "MIR panic-site inventory over everything reachable from eval::eval (D-ARITY for built-in argument indexing, D-FRAME who-may-shrink, D-BORROW guard live ranges + transitive borrow summaries, D-DISPATCH, D-SLICEORDER); who-may-write rule for the value/expression stacks (kinds of writes per reviewed writer; helpers split out of a writer inherit its review); BREAK-VALUE; WHO-CALLS-EVAL / TOPLEVEL-REPLACE; guard fingerprints on reviewed rows; thorough: NATIVE-LOOPS and RECURSION",
     "As C01, over the 590 functions the evaluator can reach: decides for all programs that no reachable Rust panic site is left unargued. The value-stack pops are a reviewed class backed by the who-may-write rule VALSTACK-WRITERS.",
     "Trusted: as C01. D-VALSTACK assumes each scheduled sub-expression pushes exactly one value (not proved; the known finding `1 + continue` inside a for body is the recorded counterexample class). Drop-glue recursion on deeply nested values is outside MIR call facts.",
     "DESIGN.md sections 3 and 4 C02")
@@ -127,10 +126,15 @@ chk("C09", "MIR panic-site inventory over the JSON worker thread's reachable cod
     "Trusted: as C01/C02. Content and order of responses are not decided; the stdin framing loop is out of scope.",
     "DESIGN.md section 4 C09")
 
-chk("C28", "MIR panic-site inventory over lsp::run_lsp's reachable code; per-method region path-count (exactly one response iff an id is present, none for notifications); loop-exit shape; pipeline agreement with `garden check`; DOC-SYNC (stored and checked text = contentChanges.last().text)",
+chk("C28", "MIR panic-site inventory over lsp::run_lsp's reachable code; per-method region path-count (exactly one response iff an id is present, none for notifications); loop-exit shape; pipeline agreement with `garden check`; DOC-SYNC (stored and checked text = contentChanges.last().text, followed through a shared helper)",
     "Panic-freedom of every handler the server can run is decided as in C01; ARM-SHAPE decides on handle_message's CFG that each of the 12 request methods answers exactly once when an id is present and that notifications never answer; the server loop leaves only on end of input or `exit`.",
-    "Trusted: as C01; serde serialisation of the server's own response types does not fail. Range conversion correctness (C29) and equality of diagnostics beyond the pipeline shape are not decided.",
+    "Trusted: as C01; serde serialisation of the server's own response types does not fail. Range conversion clauses are under C29; equality of diagnostics beyond the pipeline shape is not decided.",
     "DESIGN.md section 4 C28")
+
+chk("C29", "MIR unit dataflow (bytes / chars / UTF-16 code units; call-site-to-parameter and return summaries inside lsp::): every LSP Position.character is a UTF-16 count, no comparison or sum mixes units; LINE-RELATIVE provenance of the column slice; EDIT-RANGE / ONE-TEXT (resolved operands, closure captures followed: the text positions are converted against is the text handed to the refactoring); SAME-CORE (call graph: the LSP producer and main call the same core function)",
+    "Structural necessary conditions of both halves of the property, each decided for all documents: columns the server sends are UTF-16 counts measured from the start of the line and the client's column is compared with a UTF-16 count; every TextEdit range comes from a text-taking converter applied to the same text the refactoring ran on; each LSP edit producer calls the function the command line calls. The offset<->position round trip and the edited text themselves are not computed.",
+    "Trusted: rustc MIR; std's encode_utf16/len_utf16/char_indices; clients send UTF-16 positions. Line arithmetic (which line an offset is on, CRLF handling) and the refactorings' own output are not decided; one reviewed exception (garden_pos_to_lsp_range_no_src, never used for edits).",
+    "DESIGN.md section 4 C29")
 
 ENGINES = [
  {"name": "gfacts", "path": "tools/gfacts", "kind_free_text": "rustc_private driver (nightly) dumping the type-checked MIR (CFG, resolved callees, asserts, places with field names) of every function of the garden crate as JSON; run as RUSTC_WORKSPACE_WRAPPER under cargo +nightly check on /repo's current tree"},
